@@ -161,10 +161,16 @@ def read_crystal():
     if not m:
         raise RuntimeError("crystal_structures literal not found")
     out = []
+    CRYSTAL_LABELS[:] = []
     for line in m.group(1).rstrip().split("\n"):
         body = line.split("#")[0].strip().rstrip(",")
         out.append(ast.literal_eval(body))
+        CRYSTAL_LABELS.append(line.split("#", 1)[1].strip() if "#" in line else None)
+    CRYSTAL_LABELS.append("Lw")
     return out
+
+
+CRYSTAL_LABELS = []
 
 
 def read_spectral():
@@ -262,6 +268,19 @@ def direct(tname, table):
                      % (el.symbol, u), atom=el.symbol, observed=repr(u), expected=None)
     # --- crystal structure
     lit = read_crystal()
+    # the list is positional; each entry is labelled in the source with the symbol of its element ("X" for the neutron's
+    # slot; "#Th" on slot 65 is a slip in the comment, the entry is terbium's; "Lw" is lawrencium)
+    by_label = {}
+    for k, lab in enumerate(CRYSTAL_LABELS[:len(lit)]):
+        if lab is not None and not (k == 65 and lab == "Th"):
+            by_label.setdefault({"X": "n", "Lw": "Lr"}.get(lab, lab), k)
+    for el in table:
+        k = by_label.get(el.symbol)
+        if k is not None and k != el.number:
+            s = attempt(getattr, el, "crystal_structure")
+            fail("crystal_structure_label", "Z=%d" % el.number, "the entry labelled #%s in crystal_structures is in slot %d, not %d: "
+                 "%s.crystal_structure is %r, the entry labelled with its symbol is %r"
+                 % (el.symbol, k, el.number, el.symbol, s, lit[k]), atom=el.symbol, observed=repr(s), expected=repr(lit[k]))
     for el in table:
         z = el.number
         s = attempt(getattr, el, "crystal_structure")
